@@ -57,7 +57,7 @@ enum Place {
 pub fn gen(c: &mut Ctx, tier: Tier) -> Option<Program> {
     let open = tier == Tier::Thorough && c.flag("open-source");
     let places: &[Place] = match tier {
-        Tier::Quick => &[Place::Derive, Place::Filter, Place::AfterPlainAggregate, Place::AfterDistinct],
+        Tier::Quick => &[Place::Derive, Place::Filter, Place::AfterPlainAggregate, Place::AfterDistinct, Place::AfterTake],
         Tier::Thorough => &[Place::Derive, Place::Filter, Place::Select, Place::SortKey, Place::DeriveThenFilter, Place::FilterThenDerive, Place::AfterTake, Place::AfterPlainAggregate, Place::BeforePlainAggregate, Place::AfterDistinct],
     };
     let place = *c.pick(places, "placement");
@@ -194,7 +194,7 @@ pub fn run(tier: Tier) -> i32 {
     run.states = cases.len() as u64;
     run.transitions = st.points;
     run.set("bounds", json!({"partition": ["none","a"], "sort": ["none","b","-b","{a,-b}"], "frames": frames().iter().map(|f| format!("{f:?}")).collect::<Vec<_>>(),
-        "functions": FNS.iter().map(|f| f.name()).collect::<Vec<_>>(), "placements": tier.pick(4, 10), "sources": tier.pick("closed", "closed+open"), "instances": pool.len(), "engine_executions": st.executions}));
+        "functions": FNS.iter().map(|f| f.name()).collect::<Vec<_>>(), "placements": tier.pick(5, 10), "sources": tier.pick("closed", "closed+open"), "instances": pool.len(), "engine_executions": st.executions}));
     run.set("rule", json!("states = distinct window programs; validated = (program, instance, target) triples executed on SQLite and compared (multiset, or admissible order) with the reference window evaluation; positional functions / rows frames are decided only where the order is total in every partition"));
     run.assume("SQLite window functions are trusted; range frames decided only for a single non-null numeric key");
     run.finish()
